@@ -115,6 +115,9 @@ impl Out {
         // accepted inputs are sampled ten times as densely as rejected ones (their values are what the spec can decide)
         let every = if o.is_ok() { (self.event_every / 10).max(1) } else { self.event_every };
         if !force && (self.event_every == 0 || n % every != 0 || self.stats.events >= self.event_cap) { return; }
+        // TLC re-parses every recorded input with recursive operators: inputs beyond 100 characters cost it seconds each; they are
+        // executed and their step count is compared with the bound here, but only every tenth is handed to the trace specification
+        if !force && input.chars().count() > 100 && n % (every * 10) != 0 { return; }
         self.stats.events += 1;
         let val = match o { Outcome::Ok(v) => v.abstract_json(), _ => json!({"t": "none"}) };
         let line = json!({"ev": "Call", "e": e, "chars": abstract_chars(input), "len": input.chars().count(),
